@@ -130,6 +130,9 @@ func checkC19(c *Check) {
 		if c.Tier == "thorough" || i%3 == 0 {
 			paths = append(paths, "cbe", "cte")
 		}
+		if nc.Form == "pint" || nc.Form == "nint" || nc.Form == "int" || nc.Form == "bigint" {
+			paths = append(paths, "ref-after", "ref-before")
+		}
 		for _, path := range paths {
 			var got interface{}
 			var err error
@@ -158,6 +161,37 @@ func checkC19(c *Check) {
 						return
 					}
 					got, err = ce.UnmarshalFromCBEDocument(doc, tmpl, cfg)
+				case "ref-after", "ref-before":
+					// the value is marked at a field of integer type and referenced from a field of the destination type
+					carrier := map[string]reflect.Type{"pint": reflect.TypeOf(uint64(0)), "nint": reflect.TypeOf((*big.Int)(nil)), "int": reflect.TypeOf(int64(0)), "bigint": reflect.TypeOf((*big.Int)(nil))}[nc.Form]
+					st := reflect.StructOf([]reflect.StructField{{Name: "I", Type: carrier}, {Name: "F", Type: reflect.TypeOf(tmpl)}})
+					str := func(sv string) AEv {
+						e := newEv("OnStringlikeArray")
+						e.AT, e.DT, e.Bytes, e.Count = "string", "string", bytesToInts([]byte(sv)), len(sv)
+						return e
+					}
+					mk, rf := idEv("OnMarker", []byte("x")), idEv("OnReferenceLocal", []byte("x"))
+					evs := []AEv{newEv("OnBeginDocument"), newEv("OnVersion"), newEv("OnMap")}
+					if path == "ref-after" {
+						evs = append(evs, str("I"), mk, ev, str("F"), rf)
+					} else {
+						evs = append(evs, str("F"), rf, str("I"), mk, ev)
+					}
+					evs = append(evs, newEv("OnEndContainer"), newEv("OnEndDocument"))
+					doc, rej, _ := encodeCBE(evs, cfg)
+					if rej >= 0 {
+						err = fmt.Errorf("not encodable")
+						return
+					}
+					var back interface{}
+					back, err = ce.UnmarshalFromCBEDocument(doc, reflect.New(st).Elem().Interface(), cfg)
+					if err == nil {
+						bv := reflect.ValueOf(back)
+						if bv.Kind() == reflect.Ptr {
+							bv = bv.Elem()
+						}
+						got = bv.Field(1).Interface()
+					}
 				case "cte":
 					doc, rej, _ := encodeCTE([]AEv{newEv("OnBeginDocument"), newEv("OnVersion"), ev, newEv("OnEndDocument")}, cfg)
 					if rej >= 0 {
